@@ -147,8 +147,15 @@ func c16Runs(c *core.Case, o *core.Outcome) {
 			if rp.NilRunFn {
 				return nil
 			}
+			if rp.FailEvery == 3 {
+				// the handle's public Scenario field is the program's to write: the series stay named after the scenario
+				t.Scenario = "renamed-in-setup"
+			}
 			return func(t *f1testing.T) {
 				n := started.Add(1)
+				if rp.FailEvery == 3 || rp.FailEvery == 7 {
+					t.Scenario = "renamed-in-the-body"
+				}
 				if rp.Mode == "drops" && n == 1 {
 					<-gate
 				}
